@@ -214,9 +214,15 @@ pub fn run(ctx: &mut Ctx) -> Result<RunOut, Violation> {
                                 desc = format!("flush -> {:?}", r.map_err(|e| e.to_string()));
                             }
                             POp::WaitDelivered => {
-                                // Only meaningful for identity coding: wait until everything
-                                // surely handed over has been received.
-                                let target = if is_gzip { 0 } else { pout.lock().unwrap().flushed as u64 };
+                                // Everything accepted before the last successful flush must reach the
+                                // consumer without any further producer action; for gzip the consumer
+                                // reports its progress in *decoded* bytes.
+                                // (Not beyond 30 000 gzip input bytes: that is the domain of the open
+                                // known finding F6, flate2's incomplete sync flush.)
+                                let target = {
+                                    let o = pout.lock().unwrap();
+                                    if is_gzip && o.accepted.len() >= 30_000 { 0 } else { o.flushed as u64 }
+                                };
                                 let ok = sched.block(Status::WaitDelivered(target), "wait-until-delivered", target);
                                 desc = format!("wait-until-delivered({target}) -> {ok}");
                                 if !ok {
@@ -357,6 +363,7 @@ pub fn run(ctx: &mut Ctx) -> Result<RunOut, Violation> {
                         let total = o.log.total as u64;
                         match step {
                             Step::Data(_) => {
+                                let total = if is_gzip { gunzip_prefix(&o.delivered).0.len() as u64 } else { total };
                                 drop(o);
                                 sched.progress_delivered(total);
                                 sched.note("frame", total);
